@@ -5,7 +5,8 @@ This module defines text regions in both pixel and sky coordinates.
 
 from regions._utils.wcs_helpers import pixel_scale_angle_at_skycoord
 from regions.core.attributes import (RegionMetaDescr, RegionVisualDescr,
-                                     ScalarPixCoord, ScalarSkyCoord)
+                                     ScalarPixCoord, ScalarSkyCoord,
+                                     TextString)
 from regions.shapes.point import PointPixelRegion, PointSkyRegion
 
 __all__ = ['TextSkyRegion', 'TextPixelRegion']
@@ -52,6 +53,7 @@ class TextPixelRegion(PointPixelRegion):
     _mpl_artist = 'Text'
     center = ScalarPixCoord('The leftmost pixel position (before rotation) '
                             'as a |PixCoord|.')
+    text = TextString('The text string.')
     meta = RegionMetaDescr('The meta attributes as a |RegionMeta|')
     visual = RegionVisualDescr('The visual attributes as a |RegionVisual|.')
 
@@ -124,6 +126,7 @@ class TextSkyRegion(PointSkyRegion):
     _params = ('center', 'text')
     center = ScalarSkyCoord('The leftmost position (before rotation) as a '
                             '|SkyCoord|.')
+    text = TextString('The text string.')
     meta = RegionMetaDescr('The meta attributes as a |RegionMeta|')
     visual = RegionVisualDescr('The visual attributes as a |RegionVisual|.')
 
